@@ -34,7 +34,7 @@ impl File {
     #[verifier::external_body]
     pub fn metadata(&self) -> (r: Result<StdMetadataOpaque, IOError>) { unimplemented!() }
     #[verifier::external_body]
-    pub fn into_raw_fd(self) -> (r: i32) ensures r as int == raw_of(self.id()) { unimplemented!() }
+    pub fn into_raw_fd(self) -> (r: i32) ensures r as int == raw_of(self.id()), handed_over_open(self.id()) { unimplemented!() }
 }
 #[verifier::external_body]
 pub struct StdMetadataOpaque { _p: () }
@@ -97,7 +97,17 @@ impl AsRawFd for BorrowedFd<'_> {
     #[verifier::external_body]
     fn as_raw_fd(&self) -> (r: i32) { unimplemented!() }
 }
+impl AsRawFd for OwnedFd {
+    open spec fn raw_spec(&self) -> int { raw_of(self.id()) }
+    #[verifier::external_body]
+    fn as_raw_fd(&self) -> (r: i32) { unimplemented!() }
+}
 pub struct File { pub fd: OwnedFd }
+impl AsRawFd for File {
+    open spec fn raw_spec(&self) -> int { raw_of(self.fd.id()) }
+    #[verifier::external_body]
+    fn as_raw_fd(&self) -> (r: i32) { unimplemented!() }
+}
 impl File { pub open spec fn id(&self) -> int { self.fd.id() } }
 impl AsFd for File {
     open spec fn fd_id(&self) -> int { self.fd.id() }
@@ -177,12 +187,15 @@ pub fn borrow_raw_nonneg<'a>(fd: i32) -> (r: BorrowedFd<'a>)
     requires fd >= 0                             // [C05+C11+C17.borrow_raw.only_nonnegative]
     ensures raw_of(r.id@) == fd as int, borrowed_from_c(r.id@)
 { unimplemented!() }
+/// the owner gave the descriptor up *without closing it* (`into_raw_fd`); reading the number of a descriptor that stays owned
+/// (`as_raw_fd`) does not: its owner closes it when it is dropped
+pub uninterp spec fn handed_over_open(id: int) -> bool;
 pub trait IntoRawFd: Sized { fn into_raw_fd(self) -> (r: i32); }
 impl IntoRawFd for OwnedFd {
     /// ownership of the descriptor leaves Rust: only legal for descriptors the library opened itself
     #[verifier::external_body]
     fn into_raw_fd(self) -> (r: i32)
-        ensures r as int == raw_of(self.id())
+        ensures r as int == raw_of(self.id()), handed_over_open(self.id())
     { unimplemented!() }
 }
 pub open spec fn creation_flags(bits: i32) -> bool { bits & (libc::O_CREAT | libc::O_EXCL) != 0 || bits & libc::O_TMPFILE == libc::O_TMPFILE }
